@@ -39,6 +39,7 @@ from vlib.val import line, Word
 from vlib.compare import diff, Err, exc_kind
 
 ID = 'C06'
+PYOBJECT_METHODS = ['reverse', 'swap', 'reparam', 'reparam_dir', 'start', 'end']   # splineobject.py methods re-translated and proved equal to the hand model each run
 PYBASIS_METHODS = ['reverse', 'reparam', 'normalize', '__iadd__', '__isub__', '__imul__', '__itruediv__']   # basis.py methods re-translated and proved equal to the hand model each run
 # theorems of this property stated for the object evaluator `Obj.evaluate` (bridge through C02)
 EXTRA_THEOREMS = [('Splipy.Properties.Bridge', 'Splipy/Properties/Bridge.lean', 'Bridge_C06_')]
